@@ -1,4 +1,5 @@
 import Svgbob.Proofs.NoPanic
+import Svgbob.Model.Convert
 import Svgbob.Proofs.LineParse
 import Svgbob.Proofs.CircleMatchFacts
 import Svgbob.Model.Doc
@@ -86,5 +87,13 @@ theorem conversion_total (env : Env) (cfg : Cfg) (cat : Catalogue) (input : List
   cases he : endorseAll (segColumns env) cat (front env input).cells (front env input).escaped with
   | none => simp [he] at h
   | some r => exact ⟨r.1, r.2, rfl, _, rfl⟩
+
+/-- … stated for `Model/Convert.convertDoc`, the function the driver serializes for the byte-level
+correspondence: it returns a document for every text, environment, settings value and catalogue -/
+theorem whole_conversion_returns (env : Env) (cfg : Cfg) (cat : Catalogue) (input : List Char) :
+    ∃ root, convertDoc env cfg cat input = some root := by
+  obtain ⟨fs, gs, h, _⟩ := conversion_total env cfg cat input true
+  exact ⟨svgRoot (segColumns env) cfg (front env input).cells (front env input).css (fs.map (·.frag))
+    (gs.map fun g => g.map (·.frag)), by unfold convertDoc; simp only [h]⟩
 
 end Svgbob.C01
